@@ -24,12 +24,13 @@ RULE = (
     "reference-encoder-written) with bit flips, byte inserts / deletes, splices of two streams, truncations, duplicated "
     "frames; (c) structure-aware hostile streams built with my wire codec: declared table sizes 4097..2^32-1, frame / row / "
     "string lengths up to 2^62, quoted triples nested 1..300, options rows in odd places, 10^4 empty frames, ids 2^32-1, "
-    "invalid UTF-8, over-long varints; each through parse_jelly_flat, parse_jelly_grouped and parse_jelly_to_graph of both "
+    "invalid UTF-8, over-long varints, plus four fixed large inputs (4*10^5 leading / 10^6 / 3*10^5 trailing empty frames, "
+    "5*10^4 rows in one frame); each through parse_jelly_flat, parse_jelly_grouped and parse_jelly_to_graph of both "
     "integrations, from BytesIO and from a non-seekable short-reading raw source; (d) atheris coverage-guided campaigns on "
     "the four flat / grouped entry points with a structure-aware custom mutator, seeded and empty corpus. Oracle, enforced "
     "by a supervising process over forked workers: the call returns or raises an ordinary Exception; the worker never "
     "dies; no input <= 64 KiB takes more than 20 s (a timeout that does not reproduce alone is inconclusive, not a "
-    "violation); peak RSS of the worker grows by <= 256 MiB (ballooning is judged by measured RSS; a MemoryError raised at once for an absurd declared length is an ordinary exception). non-trivial = input with a parsable "
+    "violation); peak RSS of the worker grows by <= 256 MiB + 2 KiB per input byte (ballooning is judged by measured RSS; a MemoryError raised at once for an absurd declared length is an ordinary exception). non-trivial = input with a parsable "
     "options row (gets past get_options_and_frames); distinct by input hash."
 )
 ASSUMPTIONS = [
@@ -304,13 +305,17 @@ def check_input(data: bytes):
     for _, entry, what in r["bad"]:
         tag = "slow" if what.startswith("took") else "bad-exception"
         return Violation(f"C17:{tag}:{entry}", f"{entry}: {what} on a {len(data)}-byte input", case)
-    if r["rss_growth_kb"] > RSS_LIMIT_KB:
+    # memory in proportion to what the input really contains (e.g. 10^5 frames actually present) is not the subject;
+    # memory in proportion to merely declared sizes is: allow 2 KiB per input byte on top of the fixed bound
+    if r["rss_growth_kb"] > RSS_LIMIT_KB + 2 * len(data):
         return Violation("C17:balloon:rss", f"peak RSS grew by {r['rss_growth_kb'] // 1024} MiB on a {len(data)}-byte input", case)
     return None
 
 
 def check_case(case):
     if case.get("hex") is None:
+        if "fixed_index" in case:
+            return check_input(fixed_hostile()[case["fixed_index"]])
         return None
     return check_input(bytes.fromhex(case["hex"]))
 
@@ -432,8 +437,48 @@ def run_atheris(spec, acc):
         shutil.rmtree(work, ignore_errors=True)
 
 
+def fixed_hostile():
+    """Deterministic large hostile inputs, too expensive to draw often."""
+    opts = {"physical_type": 1, "logical_type": 1, "max_name_table_size": 16, "max_prefix_table_size": 8,
+            "max_datatype_table_size": 8, "version": 1}
+    stmt = {"s": ("bnode", "a"), "p": ("bnode", "b"), "o": ("lit", "x", None)}
+    valid = wire.enc_stream([{"rows": [("options", opts), ("triple", stmt)], "metadata": []}], True)
+    out = [b"\x00" * 400_000 + valid,                       # 4*10^5 empty frames, then a valid one
+           b"\x00" * 200_000,                                # only empty frames
+           valid + b"\x00" * 300_000]                        # trailing empty frames
+    rows = [("options", opts)] + [("triple", stmt)] * 50_000  # one frame with 5*10^4 rows
+    out.append(wire.enc_stream([{"rows": rows, "metadata": []}], True))
+    return out
+
+
+def run_fixed(spec, acc):
+    import hashlib
+
+    known = set(spec["known"])
+    for d in fixed_hostile():
+        acc.evaluations += 1
+        acc.counters["fixed_large_hostile_inputs"] += 1
+        acc.nontrivial.add(hashlib.sha1(d).hexdigest()[:16])
+        v = check_input(d)
+        if v is None:
+            continue
+        if v.signature.startswith("C17:slow") or v.signature == "C17:hang":
+            # the 20 s bound is stated for inputs <= 64 KiB; these are larger
+            acc.counters["large_input_slow_not_asserted"] += 1
+            continue
+        v.case = {"kind": "bytes", "hex": None, "len": len(d), "fixed_index": fixed_hostile().index(d)}
+        if v.signature in known:
+            acc.known_hits[v.signature] += 1
+        else:
+            acc.violations.append(v.to_json())
+            return
+
+
 def run_shard(spec) -> Acc:
     acc = Acc()
+    if spec["part"] == "fixed":
+        run_fixed(spec, acc)
+        return acc
     if spec["part"] == "generated":
         run_generated(spec, acc)
     else:
@@ -443,7 +488,8 @@ def run_shard(spec) -> Acc:
 
 def plan(tier, seed):
     q = tier == "quick"
-    specs = [{"part": "generated", "shard": i, "n": 250 if q else 12000} for i in range(8)]
+    specs = [{"part": "fixed", "shard": 99}]
+    specs += [{"part": "generated", "shard": i, "n": 250 if q else 12000} for i in range(7)]
     targets = ["generic_flat", "generic_grouped", "rdflib_flat", "rdflib_grouped"]
     k = 0
     for t in targets:
